@@ -137,22 +137,36 @@ theorem dictionary_accepts (d : Dict) (v : Item) (h : d.values.length ≠ maxUni
 
 /-! ## 5. decimal-scaled floats -/
 
-/-- With the repaired encoder the float column codec is bit exact **for any** float↔decimal
-    conversion pair: whatever `Float64ListToDecimalIntList` accepts, `DecimalIntListToFloat64List`
-    restores bit for bit (and what it does not accept is stored by the lossless fallback, see
-    `tagValues_rt`). No IEEE-754 reasoning is involved. -/
+/-- With the repaired encoder (acceptance test `decoded[i] != f`), **for any** float↔decimal conversion
+    pair: whatever `Float64ListToDecimalIntList` accepts, `DecimalIntListToFloat64List` restores with the
+    same length and, position by position, the same bits – except that a zero may come back with the
+    other sign (what it does not accept is stored by the lossless fallback, see `tagValues_rt`).
+    No IEEE-754 reasoning is involved. -/
 theorem float_rt (fd : FloatDec) (src : List (BitVec 64)) (ds : List I64) (e : BitVec 16)
     (h : float64ListToDecimalIntList fd src = .ok (ds, e)) :
-    decimalIntListToFloat64List fd ds e = src := by
-  unfold float64ListToDecimalIntList at h
-  split at h
-  · split at h
-    · rename_i heq
-      simp only [Res.ok.injEq, Prod.mk.injEq] at h
-      rw [← h.1, ← h.2]; exact heq
-    · simp at h
-  · simp at h
-  · simp at h
+    SameFloats (decimalIntListToFloat64List fd ds e) src :=
+  float_accept_same fd src ds e h
+
+/-- consequence: the round trip is exact modulo `-0.0 ↦ +0.0`. -/
+theorem float_rt_normZero (fd : FloatDec) (src : List (BitVec 64)) (ds : List I64) (e : BitVec 16)
+    (h : float64ListToDecimalIntList fd src = .ok (ds, e)) :
+    (decimalIntListToFloat64List fd ds e).map normZero = src.map normZero :=
+  (float_accept_same fd src ds e h).normZero_eq
+
+/-- directed form: when the decoder does not produce `-0.0` for the accepted decimals (the Go decoder
+    computes `float64(v)*10^e` / repeated division, which yields `+0.0` for `v = 0`), the round trip is
+    bit exact except that `-0.0` is read back as `+0.0` (known finding F1z). -/
+theorem float_rt_exact_up_to_negZero (fd : FloatDec) (src : List (BitVec 64)) (ds : List I64) (e : BitVec 16)
+    (h : float64ListToDecimalIntList fd src = .ok (ds, e))
+    (hn : ∀ y ∈ decimalIntListToFloat64List fd ds e, y ≠ negZero) :
+    ExactUpToNegZero (decimalIntListToFloat64List fd ds e) src :=
+  (float_accept_same fd src ds e h).directed hn
+
+/-- The full-strength statement (bit-exact round trip) – **false** for the repaired encoder as well,
+    because the acceptance test compares float64 values, not bit patterns (F1z). -/
+def floatBitExactStatement : Prop :=
+  ∀ (fd : FloatDec) (src : List (BitVec 64)) (ds : List I64) (e : BitVec 16),
+    float64ListToDecimalIntList fd src = .ok (ds, e) → decimalIntListToFloat64List fd ds e = src
 
 /-- the repair only ever turns an accepted list into a refusal; accepted results are unchanged. -/
 theorem float_fixed_eq_legacy (fd : FloatDec) (src : List (BitVec 64)) (r : List I64 × BitVec 16)
@@ -180,17 +194,35 @@ theorem float_encode_ne_panic (fd : FloatDec) (src : List (BitVec 64)) :
   · simp
   · simp_all
 
-/-- the pinned encoder (finding F1): for conversion parameters that agree with the Go functions on
-    the two points used (`floatToDecimal(±0) = (0,0)`, decoder value of `(0,0)` is `+0.0`), `[-0.0]`
-    is accepted and decodes to `[+0.0]`. -/
+/-- conversion parameters that agree with the Go functions on the points used:
+    `floatToDecimal(±0) = (0,0)`, and the decoder's value of `(0,0)` is `+0.0`. -/
 def fdZero : FloatDec where
   toDec := fun b => if b = 0#64 ∨ b = 0x8000000000000000#64 then some (0#64, 0#16) else none
   fromDec := fun _ _ => 0#64
 
+/-- F1z: `[-0.0]` is accepted (by the pinned and by the repaired encoder) and decodes to `[+0.0]`. -/
+theorem float_negZero_counterexample :
+    float64ListToDecimalIntList fdZero [0x8000000000000000#64] = .ok ([0#64], 0#16) ∧
+    decimalIntListToFloat64List fdZero [0#64] 0#16 = [0#64] := by
+  decide
+
+theorem floatBitExactStatement_refuted : ¬ floatBitExactStatement := by
+  intro h
+  have := h fdZero [0x8000000000000000#64] [0#64] 0#16 (by decide)
+  revert this
+  decide
+
+/-- `123456789012345.67` ↦ `(12345678901234567, -2)`, which the Go decoder turns into the next float
+    (`…de6c` instead of `…de6b`). -/
+def fdUlp : FloatDec where
+  toDec := fun b => if b = 0x42dc12218377de6b#64 then some (12345678901234567#64, BitVec.ofInt 16 (-2)) else none
+  fromDec := fun _ _ => 0x42dc12218377de6c#64
+
+/-- F1: the pinned encoder accepts a list that decodes one ulp off; the repaired one refuses it. -/
 theorem float_legacy_counterexample :
-    float64ListToDecimalIntList_legacy fdZero [0x8000000000000000#64] = .ok ([0#64], 0#16) ∧
-    decimalIntListToFloat64List fdZero [0#64] 0#16 ≠ [0x8000000000000000#64] ∧
-    float64ListToDecimalIntList fdZero [0x8000000000000000#64] = .err := by
+    float64ListToDecimalIntList_legacy fdUlp [0x42dc12218377de6b#64] = .ok ([12345678901234567#64], BitVec.ofInt 16 (-2)) ∧
+    decimalIntListToFloat64List fdUlp [12345678901234567#64] (BitVec.ofInt 16 (-2)) ≠ [0x42dc12218377de6b#64] ∧
+    float64ListToDecimalIntList fdUlp [0x42dc12218377de6b#64] = .err := by
   decide
 
 /-- `mulPow10Fast(v, n)` returns `v·10ⁿ` exactly (no wrap-around) or refuses. -/
@@ -217,35 +249,38 @@ theorem varArray_rt (pre s rest : List Byte) :
       .ok (s, pre.length + (marshalVarArray s).length) :=
   unmarshalVarArray_rt pre s rest
 
-/-- `DecodeTagValues ∘ EncodeTagValues = id` for int64, float64 and all other value types,
-    including every fallback: nil / "null" values, lists the decimal codec refuses (repair F1),
-    more than 256 distinct values. -/
+theorem encodeTagValues_ne_nil (z : Zstd) (fd : FloatDec) (v : Item) (vs : List Item) (vt : VType)
+    (buf : List Byte) (et : Nat) (h : encodeTagValues z fd (v :: vs) vt = .ok (buf, et)) : buf ≠ [] := by
+  simp only [encodeTagValues] at h
+  cases vt with
+  | int64 =>
+    simp only at h
+    unfold encodeInt64TagValues at h
+    repeat' split at h
+    all_goals first | (simp [plainBlock] at h; try (intro e; simp [← h.1] at e)) | skip
+    all_goals (intro e; subst e; simp_all)
+  | float64 =>
+    simp only at h
+    unfold encodeFloat64TagValues at h
+    repeat' split at h
+    all_goals first | (simp [plainBlock] at h; try (intro e; simp [← h.1] at e)) | skip
+    all_goals (intro e; subst e; simp_all)
+  | other =>
+    simp only [Res.ok.injEq] at h
+    unfold encodeDefaultTagValues at h
+    split at h <;> (simp only [plainBlock, Prod.mk.injEq] at h; intro e; simp [← h.1] at e)
+
+/-- `DecodeTagValues ∘ EncodeTagValues = id` for int64 and all non-numeric value types, including
+    every fallback: nil / "null" values, more than 256 distinct values. -/
 theorem tagValues_rt (z : Zstd) (hz : z.Lawful) (fd : FloatDec) (values : List Item) (vt : VType)
-    (hne : values ≠ []) (hok : TagOK values) (buf : List Byte) (et : Nat)
+    (hvt : vt ≠ .float64) (hne : values ≠ []) (hok : TagOK values) (buf : List Byte) (et : Nat)
     (h : encodeTagValues z fd values vt = .ok (buf, et)) :
     decodeTagValues z fd buf vt values.length = .ok values := by
   cases values with
   | nil => exact absurd rfl hne
   | cons v vs =>
+    have hbuf := encodeTagValues_ne_nil z fd v vs vt buf et h
     simp only [encodeTagValues] at h
-    have hbuf : buf ≠ [] := by
-      cases vt with
-      | int64 =>
-        simp only at h
-        unfold encodeInt64TagValues at h
-        repeat' split at h
-        all_goals first | (simp [plainBlock] at h; try (intro e; simp [← h.1] at e)) | skip
-        all_goals (intro e; subst e; simp_all)
-      | float64 =>
-        simp only at h
-        unfold encodeFloat64TagValues at h
-        repeat' split at h
-        all_goals first | (simp [plainBlock] at h; try (intro e; simp [← h.1] at e)) | skip
-        all_goals (intro e; subst e; simp_all)
-      | other =>
-        simp only [Res.ok.injEq] at h
-        unfold encodeDefaultTagValues at h
-        split at h <;> (simp only [plainBlock, Prod.mk.injEq] at h; intro e; simp [← h.1] at e)
     cases hb : buf with
     | nil => exact absurd hb hbuf
     | cons b0 brest =>
@@ -253,12 +288,31 @@ theorem tagValues_rt (z : Zstd) (hz : z.Lawful) (fd : FloatDec) (values : List I
       rw [← hb]
       cases vt with
       | int64 => exact tag_int64_rt z hz (v :: vs) hok buf et h
-      | float64 => exact tag_float64_rt z hz fd (v :: vs) hne hok buf et h
+      | float64 => exact absurd rfl hvt
       | other =>
         simp only [Res.ok.injEq] at h
         have := tag_default_rt z hz (v :: vs) hok
         rw [h] at this
         exact this
+
+/-- float64 tag values (decimal codec, or the plain block when it refuses – repair F1 – or when a
+    nil / "null" value is present): every value is read back identically, except that a zero may
+    come back with the other sign (F1z). -/
+theorem tagValues_float_rt (z : Zstd) (hz : z.Lawful) (fd : FloatDec) (values : List Item)
+    (hne : values ≠ []) (hok : TagOK values) (buf : List Byte) (et : Nat)
+    (h : encodeTagValues z fd values .float64 = .ok (buf, et)) :
+    ∃ ys, decodeTagValues z fd buf .float64 values.length = .ok ys ∧ ZeroSignEq ys values := by
+  cases values with
+  | nil => exact absurd rfl hne
+  | cons v vs =>
+    have hbuf := encodeTagValues_ne_nil z fd v vs .float64 buf et h
+    simp only [encodeTagValues] at h
+    cases hb : buf with
+    | nil => exact absurd hb hbuf
+    | cons b0 brest =>
+      simp only [decodeTagValues]
+      rw [← hb]
+      exact tag_float64_rt z hz fd (v :: vs) hok buf et h
 
 /-! ## 7. decoders are total and bounded -/
 
